@@ -58,7 +58,7 @@ type Prepared struct {
 	Ob      *Obligation
 	Focused string // goal-directed query tried first (closure families); "" if none
 	Script  string
-	Quick  string // "" or a status decided without a solver
+	Quick   string // "" or a status decided without a solver
 }
 
 func (x *Exec) Prepare(o *Obligation) *Prepared {
